@@ -23,6 +23,8 @@ class SkelPF:
             # (i, j): positions i and j carry one name; (i, j, k, ...): all of them do
             for j in repeated[1:]:
                 self.names[j] = self.names[repeated[0]]
+        self.version = Opaque(f"version_text{t}", "name")
+        self.version.sym = z3.Int(self.version.name)
         self.time = z3.Real(f"time{t}")
         self.geo_lo = [z3.Real(f"glo{d}{t}") for d in range(nd)]
         self.geo_hi = [z3.Real(f"ghi{d}{t}") for d in range(nd)]
@@ -66,7 +68,9 @@ class SkelPF:
 
     def header_lines(self, trailing_blanks=True):
         nd = self.nd
-        out = ["HyperCLaw-V1.1\n", f"{self.nf}\n"]
+        # the version line is free text of the writing code (HyperCLaw-V1.1, NavierStokes-V1.1, ...): a symbolic name that may
+        # contain blanks; the reader has no business interpreting it
+        out = [S(NameAtom(self.version, nows=False), "\n"), f"{self.nf}\n"]
         out += [S(NameAtom(nm), "\n") for nm in self.names]
         out += [f"{nd}\n", S(FloatAtom(self.time, "repr"), "\n"), f"{self.L}\n"]
         out += [self.floats_line(self.geo_lo), self.floats_line(self.geo_hi)]
